@@ -145,9 +145,9 @@ def run_tlc(module, cfg_kwargs, workers=1, timeout=3600, env=None, simulate=None
         cfg = os.path.join(tmp, "mc.cfg")
         write_cfg(cfg, **cfg_kwargs)
         if workers == 1:
-            cmd = ["java", "-XX:+UseSerialGC", "-Xmx3g", "-Xss16m", "-XX:CICompilerCount=2"]
+            cmd = ["java", "-XX:+UseSerialGC", "-Xmx3g", "-Xss64m", "-XX:CICompilerCount=2"]
         else:
-            cmd = ["java", "-XX:+UseParallelGC", "-Xss16m"]
+            cmd = ["java", "-XX:+UseParallelGC", "-Xss64m"]
         if depth_first:
             cmd.append("-Dtlc2.tool.queue.IStateQueue=StateDeque")
         cmd += ["-cp", TLC_JAR, "tlc2.TLC", "-workers", str(workers), "-metadir",
@@ -169,8 +169,12 @@ def run_tlc(module, cfg_kwargs, workers=1, timeout=3600, env=None, simulate=None
         r = TlcResult()
         r.wall = time.time() - t0
         out = p.stdout
-        r.stdout = out if keep_stdout else out[-4000:]
         r.cases = parse_printed(out)
+        if not keep_stdout:   # drop the printed cases and the parser chatter from what is kept for diagnostics
+            out = "\n".join(l for l in out.splitlines()
+                            if not (l.startswith('"{') or l.startswith('"[') or l.startswith("Parsing file")
+                                    or l.startswith("Semantic processing") or l.startswith("Linting of")))
+        r.stdout = out if keep_stdout else out[-6000:]
         m = None
         for m in _STATS.finditer(out):
             pass
@@ -186,10 +190,12 @@ def run_tlc(module, cfg_kwargs, workers=1, timeout=3600, env=None, simulate=None
         elif cfg_kwargs.get("postconditions"):
             r.post_ok = "Model checking completed. No error has been found." in out or "finished" in out.lower()
         if r.violated is None and ("Error:" in out or p.returncode not in (0,)):
+            i = out.find("Error:")
+            diag = (out[i:i + 2500] if i >= 0 else "") + "\n...\n" + out[-1200:] + p.stderr[-800:]
             if "No error has been found" not in out and not simulate:
-                r.error = out[-3000:] + p.stderr[-1000:]
+                r.error = diag
             elif simulate and "Error:" in out:
-                r.error = out[-3000:]
+                r.error = diag
         for line in out.splitlines():
             mc = _COVER.match(line.strip())
             if mc:
@@ -432,3 +438,52 @@ def validate_trace_all(module, records, constants=None, timeout=1800, max_reject
         recs = recs[idx + 1:]
         offset += idx + 1
     return res, rejects
+
+
+# --------------------------------------------------------------------------
+# parallel replay of cases into the library (fork pool; the function must be a
+# module-level function taking one case and returning a picklable result)
+# --------------------------------------------------------------------------
+
+def pmap(fn, items, jobs=None, chunksize=8):
+    items = list(items)
+    jobs = min(jobs or JOBS, max(1, len(items)))
+    if jobs <= 1 or len(items) < 4:
+        return [fn(x) for x in items]
+    import multiprocessing as mp
+    ctx = mp.get_context("fork")
+    with ctx.Pool(jobs) as pool:
+        return pool.map(fn, items, chunksize=chunksize)
+
+
+def sample(items, k, salt=0):
+    """Seeded sample (VERIF_SEED) that keeps order; all items when k >= len."""
+    import random
+    items = list(items)
+    if k >= len(items):
+        return items
+    rng = random.Random(SEED * 1000003 + salt)
+    idx = sorted(rng.sample(range(len(items)), k))
+    return [items[i] for i in idx]
+
+
+def make_snapshot(positions, types, hmatrix, timestep=0, origin=None):
+    """A reader_utils.SingleSnapshot built the way the dump reader builds it
+    (lower-triangular h-matrix, box length = its diagonal)."""
+    import numpy as np
+    from PyMatterSim.reader.reader_utils import SingleSnapshot
+    H = np.array(hmatrix, dtype=float)
+    d = H.shape[0]
+    lo = np.zeros(d) if origin is None else np.array(origin, dtype=float)
+    L = np.abs(np.diag(H)).astype(float)
+    bounds = np.c_[lo, lo + L]
+    return SingleSnapshot(timestep=int(timestep), nparticle=len(types),
+                          particle_type=np.array(types, dtype=np.int32),
+                          positions=np.array(positions, dtype=float),
+                          boxlength=L, boxbounds=bounds, realbounds=None, hmatrix=H)
+
+
+def make_snapshots(frames, types, hmatrix, timesteps=None, origin=None):
+    from PyMatterSim.reader.reader_utils import Snapshots
+    ss = [make_snapshot(f, types, hmatrix, (timesteps[i] if timesteps else i), origin) for i, f in enumerate(frames)]
+    return Snapshots(nsnapshots=len(ss), snapshots=ss)
